@@ -137,7 +137,7 @@ theorem queue_push_raw (q : EncodeQueue) (hc : q.codec = none) (hwf : q.ring.WF)
   pushRaw_spec q hc hwf hl
 
 /-- **`mpt_queue_peek` is invisible to the stream** (one call, any queue state inside a valid frame stream,
-    with or without destination buffer, any `max`): the call is safe on every state (`DInv` kept for arbitrary
+    with or without destination buffer, any `max`): the call is total (`queue_peek_safe`; `DInv` kept for arbitrary
     data: capacity, data length and offset unchanged), and inside a valid stream the receiver keeps its place
     (`Phase`: same number of finished frames, same bytes accepted — the decoder only decodes more data bytes of
     the open block in place, inside the first contiguous part of the ring), the work area invariant that the
@@ -147,14 +147,32 @@ theorem queue_push_raw (q : EncodeQueue) (hc : q.codec = none) (hwf : q.ring.WF)
     `k` as without the peek. -/
 theorem peek_invisible (v : Variant) (frames : List (List Byte)) (ms : List Msg) (hcar : Carries v frames ms)
     (q : DecodeQueue) (hc : q.codec = some v) (fed future : List Byte) (hfut : fed ++ future = frames.flatten) (k : Nat)
-    (h : DInv q) (hph : Phase v frames q.st q.ring.content fed k) (mx : Nat) (dst : Bool)
-    (q' : DecodeQueue) (r : Int) (out : List Byte) (he : queuePeek q mx dst = .ok (q', r, out)) :
+    (h : DInv q) (hph : Phase v frames q.st q.ring.content fed k) (mx : Nat) (dst : Bool) :
+    ∃ q' r out, queuePeek q mx dst = .ok (q', r, out) ∧
     DInv q' ∧ q'.codec = some v ∧ q'.ring.store.length = q.ring.store.length ∧ q'.ring.len = q.ring.len ∧
     Phase v frames q'.st q'.ring.content fed k ∧ (SlackOk v q.st → SlackOk v q'.st) ∧ q'.st.msg = q.st.msg ∧
     (q.st.msg.isSome → q'.st = q.st ∧ q'.ring.content = q.ring.content) := by
+  obtain ⟨q', r, out, he⟩ := queuePeek_total v q h hc mx dst
   obtain ⟨h1, h2, h3, h4, _⟩ := queuePeek_inv v q h hc mx dst q' r out he
   obtain ⟨h5, h6, h7, h8⟩ := queuePeek_phase v frames ms hcar q hc fed future hfut k h hph mx dst q' r out he
-  exact ⟨h1, h2, h3, h4, h5, h6, h7, h8⟩
+  exact ⟨q', r, out, he, h1, h2, h3, h4, h5, h6, h7, h8⟩
+
+/-- `mpt_queue_peek` is total on every state that satisfies the invariant (any data, not only valid streams,
+    with or without destination buffer, any `max`): no access outside the storage — the decoder stays inside the
+    piece it is given, the copy to the destination stays inside the decoded bytes —, invariant and capacity
+    kept.  So the peeks in the histories of `queue_inv_decode`, `receiver_history` and `no_stall_model` are
+    real steps, never the "model refused" no-op. -/
+theorem queue_peek_safe (v : Variant) (q : DecodeQueue) (hc : q.codec = some v) (h : DInv q) (mx : Nat) (dst : Bool) :
+    ∃ q' r out, queuePeek q mx dst = .ok (q', r, out) ∧ DInv q' ∧ q'.ring.store.length = q.ring.store.length := by
+  obtain ⟨q', r, out, he⟩ := queuePeek_total v q h hc mx dst
+  obtain ⟨h1, _, h3, _⟩ := queuePeek_inv v q h hc mx dst q' r out he
+  exact ⟨q', r, out, he, h1, h3⟩
+
+-- non-vacuity: a peek without destination on a wrapped ring with an open block
+example :
+    let q0 : DecodeQueue := { ring := { store := List.replicate 8 0, len := 0, off := 6 }, codec := some .cobs, base := 3 }
+    ((queueFeed q0 [5, 0x61, 0x62]).toOption'.bind fun q1 => (queueRecv q1.1).toOption'.bind fun q2 =>
+      (queuePeek q2.1 16 false).toOption'.map fun x => x.2.1) = some 2 := by decide
 
 -- non-vacuity: COBS frame `05 61 62 63 64 00` arrives in a wrapped ring; after the first receive the decoder
 -- stands inside the block; a peek decodes two more bytes in place; the next receive delivers the message
@@ -392,5 +410,170 @@ example :
     let s := ([.feed [0xe1], .recv, .feed [7], .recv, .feed [2, 9, 0], .shift] : List DOp).foldl rstep
       { q := { ring := { store := List.replicate 5 0, len := 0, off := 3 }, codec := some .zpe, base := 3 } }
     s.fed = [0xe1, 7, 2, 9, 0] ∧ s.got = [] ∧ frameCount s.fed = 1 := by decide
+
+/-! ### sender not quiescent; per-call liveness; exactness -/
+
+/-- **What a sender history puts on the wire, any state of the sender** (message in progress, finished bytes
+    not taken, finished blocks of the open message already taken): the bytes taken so far are a prefix of a
+    valid frame stream that carries the terminated messages followed by the message in progress as it would be
+    terminated now.  In particular the bytes taken beyond the complete frames are finished blocks of the
+    reference encoding of the message in progress (no delimiter among them). -/
+theorem sender_wire_prefix (v : Variant) (store : List Byte) (off : Nat) (hoff : off ≤ store.length) (ops : List EOp) :
+    let s := erun { q := { ring := { store := store, len := 0, off := off }, codec := some (.cobs v) } } ops
+    ∃ (frames : List (List Byte)) (last rest : List Byte),
+      Carries v frames s.msgs ∧ IsFrame last ∧ dec v last = some s.cur ∧ rest ≠ [] ∧ rest.getLast? = some 0 ∧
+      s.wire ++ rest = (frames ++ [last]).flatten := by
+  obtain ⟨frames, vis, fin, ms, hinv, hcar, hsum, hcur⟩ := (erun_hist v ops _ (fresh_hist v store off hoff)).ex
+  obtain ⟨run, _, _, _, g4⟩ := hinv.winv
+  have hf := g4 []
+  simp only [List.append_nil] at hf
+  refine ⟨frames, encB v [] false ms ++ [0], vis ++ (encB v run false [] ++ [0]), hcar,
+    IsFrame.mk _ (encB_nz v ms [] false (Inv.nil v)), by rw [dec_body_frame v ms, hcur], by simp, by simp, ?_⟩
+  rw [List.flatten_append, ← List.append_assoc, hsum, hf]
+  simp
+
+/-- **Sender queue to receiver queue, no condition on the sender** (model, end to end, safety, every point of
+    every interleaving): whatever the sender has done so far — a message may be in progress, finished bytes may
+    wait in its queue, blocks of the open message may be on the wire already — and whatever part of the wire
+    has reached the receiver in whatever pieces with receives, shifts, growths and peeks in between: the
+    messages delivered are a prefix of the messages the sender has terminated.  The message in progress is
+    never delivered, complete or in part. -/
+theorem queue_to_queue_any (v : Variant) (estore : List Byte) (eoff : Nat) (heoff : eoff ≤ estore.length) (eops : List EOp)
+    (dstore : List Byte) (doff base : Nat) (hdoff : doff ≤ dstore.length) (dops : List DOp) (future : List Byte) :
+    let s := erun { q := { ring := { store := estore, len := 0, off := eoff }, codec := some (.cobs v) } } eops
+    let r := dops.foldl rstep { q := { ring := { store := dstore, len := 0, off := doff }, codec := some v, base := base } }
+    r.fed ++ future = s.wire → ∃ k, r.got = s.msgs.take k ∧ k ≤ s.msgs.length := by
+  intro s r hfed
+  obtain ⟨frames, last, rest, hcar, hlf, hld, hrne, hrl, hsum⟩ := sender_wire_prefix v estore eoff heoff eops
+  have hsum : s.wire ++ rest = (frames ++ [last]).flatten := hsum
+  have hcar : Carries v frames s.msgs := hcar
+  have hcar' : Carries v (frames ++ [last]) (s.msgs ++ [s.cur]) := hcar.snoc ⟨hlf, hld⟩
+  have hfut : r.fed ++ (future ++ rest) = (frames ++ [last]).flatten := by
+    rw [← List.append_assoc, hfed]; exact hsum
+  obtain ⟨k, hk, hkl⟩ := receiver_history v _ _ hcar' dstore doff base hdoff dops (future ++ rest) hfut
+  obtain ⟨hle, _⟩ := no_stall_model v _ _ hcar' dstore doff base hdoff dops (future ++ rest) hfut
+  have hk : r.got = (s.msgs ++ [s.cur]).take k := hk
+  have hfed : r.fed ++ future = s.wire := hfed
+  -- the delimiter of the last frame has not been taken: fewer delimiters on the wire than frames
+  have hz : (frames ++ [last]).flatten.count 0 = frames.length + 1 := by
+    rw [frames_count _ (fun f hf => carries_isFrame hcar' f hf)]; simp
+  have hrz : 1 ≤ rest.count 0 := by
+    have hmem : (0 : Byte) ∈ rest := by
+      have := List.mem_of_getLast? hrl
+      exact this
+    exact List.count_pos_iff.mpr hmem
+  have hwz : s.wire.count 0 ≤ frames.length := by
+    have := congrArg (List.count 0) hsum
+    rw [List.count_append, hz] at this
+    omega
+  have hfz : frameCount r.fed ≤ s.wire.count 0 := by
+    unfold frameCount
+    have := congrArg (List.count 0) hfed
+    rw [List.count_append] at this
+    omega
+  have hfl : frames.length = s.msgs.length := carries_length hcar
+  have hlen' : (s.msgs ++ [s.cur]).length = s.msgs.length + 1 := by simp
+  have hkl' : k ≤ s.msgs.length + 1 := by rw [← hlen']; exact hkl
+  have hle' : r.got.length ≤ frameCount r.fed := hle
+  have hgl : r.got.length = k := by
+    have := congrArg List.length hk
+    rw [List.length_take, hlen'] at this
+    omega
+  have hkm : k ≤ s.msgs.length := by omega
+  refine ⟨k, ?_, hkm⟩
+  rw [hk, List.take_append_of_le_length hkm]
+
+-- non-vacuity: the sender has an open message and one block of it on the wire; the receiver has all of the wire
+example :
+    let s := erun { q := { ring := { store := List.replicate 8 0, len := 0, off := 5 }, codec := some (.cobs .cobs) } }
+      [.push [7], .term, .push [1, 0, 2], .take 100]
+    let r := ([.feed [2, 7, 0, 2], .recv, .feed [1], .recv, .recv] : List DOp).foldl rstep
+      { q := { ring := { store := List.replicate 12 0, len := 0, off := 10 }, codec := some .cobs, base := 3 } }
+    s.wire = [2, 7, 0, 2, 1] ∧ s.q.ring.len ≠ 0 ∧ r.fed = s.wire ∧ r.got = [[7]] ∧ s.msgs = [[7]] := by decide
+
+/-- **`mpt_queue_recv` never waits for data that is there** (one call, any queue state inside a valid stream
+    that satisfies the invariants of a receiver history — `DInv`, `Phase`, `SlackOk` hold in every reachable
+    state, see `no_stall_model`): when the unread data contains the delimiter of the frame being received, the
+    call returns 1 (message delivered) or `MissingBuffer` (the decoder asks for work area); it never returns 0
+    or `MissingData`.  With `pre.length + 2` bytes of free storage (`pre` = the bytes in front of the delimiter)
+    it returns 1.  This is the fact the correspondence run judges every `dq recv` by. -/
+theorem recv_never_waits (v : Variant) (frames : List (List Byte)) (ms : List Msg) (hcar : Carries v frames ms)
+    (q : DecodeQueue) (hc : q.codec = some v) (fed future : List Byte) (hfut : fed ++ future = frames.flatten) (k : Nat)
+    (h : DInv q) (hs : SlackOk v q.st) (hph : Phase v frames q.st q.ring.content fed k)
+    (pre junk : List Byte) (hun : q.ring.content.drop q.st.curr = pre ++ 0 :: junk) (hnz : ∀ x ∈ pre, x ≠ 0) :
+    (∃ q' r, queueRecv q = .ok (q', r) ∧ (r = 1 ∨ r = Err.MissingBuffer.code)) ∧
+    (pre.length + 2 ≤ q.ring.store.length - q.ring.len → ∃ q', queueRecv q = .ok (q', 1)) :=
+  ⟨queueRecv_answers v frames ms hcar q hc fed future hfut k h hs hph pre junk hun hnz,
+   fun hfree => queueRecv_live v frames ms hcar q hc fed future hfut k h hs hph pre junk hun hnz hfree⟩
+
+/-- **Growth only on request** (model): from every reachable receiver state with a complete frame pending, a
+    reader that calls `mpt_queue_recv` and — only if that did not deliver — gives the queue `B ≥ fed + 2` bytes
+    more and calls again, has the next message.  (The readers of the library and of the drivers enlarge by 64
+    bytes per refusal and repeat; that the repeated small steps add up is not proved, see the level note.) -/
+theorem recv_or_grow_delivers (v : Variant) (frames : List (List Byte)) (ms : List Msg) (hcar : Carries v frames ms)
+    (store : List Byte) (off base : Nat) (hoff : off ≤ store.length) (ops : List DOp) (future : List Byte) (B : Nat) :
+    let s := ops.foldl rstep { q := { ring := { store := store, len := 0, off := off }, codec := some v, base := base } }
+    s.fed ++ future = frames.flatten → s.fed.length + 2 ≤ B → s.got.length < frameCount s.fed →
+    (rstep s .recv).got = ms.take (s.got.length + 1) ∨
+    ((rstep s .recv).got = s.got ∧ (drainStep B (rstep s .recv)).got = ms.take (s.got.length + 1)) := by
+  intro s hfut hB hc
+  have hfresh : Fresh ({} : DecState) := ⟨rfl, fun _ => rfl, fun m hm => by cases hm⟩
+  have h0 : RInvL v frames ms { q := { ring := { store := store, len := 0, off := off }, codec := some v, base := base } } :=
+    ⟨⟨DInv.fresh store off hoff (some v) base, rfl, 0, by simp, by omega, Phase.idle hfresh (by simp) (by simp [Ring.content])⟩,
+     slackOk_ctx0 v _ rfl⟩
+  have hI := rrunL_inv v frames ms hcar ops _ future hfut h0
+  have hsame : (rstep s .recv).fed = s.fed := by
+    simp only [rstep]
+    split
+    · split <;> rfl
+    · rfl
+  have hI1 := rstepL_inv v frames ms hcar s .recv future (by rw [hsame]; exact hfut) hI
+  obtain ⟨k, hgot, hk, _⟩ := hI.inv.ex
+  obtain ⟨k1, hgot1, hk1, _⟩ := hI1.inv.ex
+  have hgot' : s.got = ms.take k := hgot
+  have hkl : s.got.length = k := by
+    have := congrArg List.length hgot'
+    simp only [List.length_take] at this; omega
+  have hlen1 : (rstep s .recv).got.length = s.got.length ∨ (rstep s .recv).got.length = s.got.length + 1 := by
+    simp only [rstep]
+    split
+    · split
+      · right; simp
+      · left; rfl
+    · left; rfl
+  have hk1l : (rstep s .recv).got.length = k1 := by
+    have := congrArg List.length hgot1
+    simp only [List.length_take] at this; omega
+  rcases hlen1 with hl | hl
+  · right
+    have hsg : (rstep s .recv).got = s.got := by
+      rw [hgot1, hgot']; congr 1; omega
+    refine ⟨hsg, ?_⟩
+    have := (drainStep_delivers v frames ms hcar (rstep s .recv) future (by rw [hsame]; exact hfut) hI1 B
+      (by rw [hsame]; exact hB) (by rw [hsame, hl]; exact hc)).2.2.1
+    rw [this, hl]
+  · left
+    rw [hgot1]; congr 1; omega
+
+/-- **End to end, exactly the messages written** (model): the sender has terminated and handed out everything
+    (empty queue), all of the wire has reached the receiver (any pieces, any receiver history): draining
+    delivers exactly the messages that were written, in order. -/
+theorem end_to_end_exact (v : Variant) (estore : List Byte) (eoff : Nat) (heoff : eoff ≤ estore.length) (eops : List EOp)
+    (dstore : List Byte) (doff base : Nat) (hdoff : doff ≤ dstore.length) (dops : List DOp) :
+    let s := erun { q := { ring := { store := estore, len := 0, off := eoff }, codec := some (.cobs v) } } eops
+    let r := dops.foldl rstep { q := { ring := { store := dstore, len := 0, off := doff }, codec := some v, base := base } }
+    s.q.ring.len = 0 → r.fed = s.wire →
+    (drainN (r.fed.length + 2) (s.msgs.length - r.got.length) r).got = s.msgs := by
+  intro s r h0 hfed
+  obtain ⟨frames, inq, part, hcar, hsum, hz⟩ := sender_history v estore eoff heoff eops
+  obtain ⟨rfl, rfl⟩ := hz h0
+  simp only [List.append_nil] at hsum
+  have hfut : r.fed ++ [] = frames.flatten := by rw [List.append_nil, hfed]; exact hsum
+  obtain ⟨_, hd⟩ := no_stall_model v frames _ hcar dstore doff base hdoff dops [] hfut
+  have hfc : frameCount r.fed = s.msgs.length := by
+    unfold frameCount
+    rw [hfed, hsum, frames_count _ (carries_isFrame hcar), carries_length hcar]
+  rw [hfc] at hd
+  rw [hd, List.take_length]
 
 end Mpt.C02
